@@ -21,6 +21,7 @@ def find_diff_start(a: "Fragment", b: "Fragment", pos: int) -> int | None:
         child_a, child_b = a.child(i), b.child(i)
         if child_a == child_b:
             pos += child_a.node_size
+            i += 1
             continue
         if not child_a.same_markup(child_b):
             return pos
